@@ -188,7 +188,10 @@ pub fn iterstates(a: &Args, rep: &mut Report) {
         for p in (0..=lim).chain([MAXN]) {
             ops.push(Op::n(Code::Iter, p));
             ops.push(Op::n(Code::Drain, p));
-            ops.push(Op::n(Code::Drain, p).with_v(1));
+            // forgetting leaks the rest by design: a few prefixes only, on small states
+            if size <= 40 && (p <= 2 || p == lim / 2 || p == MAXN) {
+                ops.push(Op::n(Code::Drain, p).with_v(1));
+            }
             ops.push(Op::n(Code::IntoIter, p));
         }
         for (j, op) in ops.into_iter().enumerate() {
